@@ -149,10 +149,15 @@ class Contracts:
                 kv = dict(x.split('=', 1) for x in parts[2:])
                 self.autoreveal[parts[1]] = kv
             elif s.startswith('@proof '):
+                arm = None
+                ma = re.search(r'\s+arm=/(.*)/\s*$', s)
+                if ma:
+                    arm = ma.group(1)
+                    s = s[:ma.start()]
                 m = re.match(r'@proof\s+(\S+)\s+(entry|before|after|loopstart)(?:\s+/(.*)/\s*(\d+)?)?\s*$', s)
                 if not m:
                     raise ExtractError('%s:%d bad @proof' % (path, ln))
-                cur = ('proof', m.group(1), m.group(2), m.group(3), int(m.group(4) or 0), ln)
+                cur = ('proof', m.group(1), m.group(2), m.group(3), int(m.group(4) or 0), ln, arm)
                 buf = []
             elif s == '@end':
                 text = '\n'.join(buf)
@@ -163,7 +168,7 @@ class Contracts:
                 elif cur[0] == 'closure':
                     self.closures.setdefault(cur[1], {})[cur[2]] = (text, cur[3], cur[4])
                 else:
-                    self.proofs.setdefault(cur[1], []).append((cur[2], cur[3], cur[4], text, cur[5]))
+                    self.proofs.setdefault(cur[1], []).append((cur[2], cur[3], cur[4], text, cur[5], cur[6]))
                 cur = None
             elif cur is not None:
                 if s.startswith('//'):
@@ -174,6 +179,17 @@ class Contracts:
                 raise ExtractError('%s:%d text outside a block' % (path, ln))
         if shared:
             self.shared |= set(self.fn) - before
+
+
+def wrap_proof(ptext):
+    """`let ghost x = e;` lines become ghost declarations of the enclosing block (visible to later
+    proof blocks); everything else is wrapped in proof { }.  Both are ghost code only."""
+    ghosts = [l for l in ptext.split('\n') if re.match(r'\s*let ghost\b', l)]
+    for g in ghosts:
+        if not g.rstrip().endswith(';') or '{' in g:
+            raise ExtractError('ghost declaration must be a single `let ghost x = e;` line')
+    rest = '\n'.join(l for l in ptext.split('\n') if not re.match(r'\s*let ghost\b', l))
+    return '\n' + ''.join(g + '\n' for g in ghosts) + 'proof {\n' + rest + '\n}\n'
 
 
 def spec_callgraph(path):
@@ -638,7 +654,7 @@ class UnitBuild:
                 rbp = match_delim(bm, lpos)
                 seen = []
                 txt = ''
-                for mm in re.finditer(r'(?:append_comment\s+|eq_str\(|push_slice\()"', bm[lpos:rbp]):
+                for mm in re.finditer(r'(?:append_comment\s+|eq_str\(|push_slice\(|eat(?:_exact)?!\(self, input, )"', bm[lpos:rbp]):
                     a0 = lpos + mm.end()
                     a1 = bm.index('"', a0)
                     lit = body[a0:a1]
@@ -663,6 +679,8 @@ class UnitBuild:
                 pre = bm[max(0, kpos - 160):kpos]
                 am = re.search(r'states::(\w+)[^=]*=>\s*$', pre)
                 if not am:
+                    continue
+                if am.group(1) in ar.get('skip', '').split(','):
                     continue
                 top = table.get(am.group(1))
                 if top is None:
@@ -700,7 +718,7 @@ class UnitBuild:
                 body = body[:mm.start()] + ' ' * (mm.end() - mm.start()) + body[mm.end():]
                 self.count('S-closure-contract', 1)
         # proof blocks
-        for idx, (where, rx, nth, ptext, pln) in enumerate(self.contracts.proofs.get(q, [])):
+        for idx, (where, rx, nth, ptext, pln, parm) in enumerate(self.contracts.proofs.get(q, [])):
             if ptext.count('{') != ptext.count('}'):
                 raise ExtractError('unbalanced proof block for ' + q)
             if where == 'loopstart':
@@ -708,7 +726,7 @@ class UnitBuild:
                 for (kw, kpos, lpos) in loops:
                     rbp = match_delim(bm, lpos)
                     if rx is None or re.search(rx, bm[lpos:rbp]):
-                        inserts.append((lpos + 1, ('\nproof {\n' + ptext + '\n}\n', 'contract', pln + 1)))
+                        inserts.append((lpos + 1, (wrap_proof(ptext), 'contract', pln + 1)))
                         hit = True
                 if hit:
                     self.used_proofs.add((q, idx))
@@ -717,11 +735,20 @@ class UnitBuild:
                 pos = 1
             else:
                 hits = list(re.finditer(rx, bm))
+                if parm:
+                    # restrict to the loop(s) guarded by a match arm whose pattern matches `parm`
+                    spans = []
+                    for (kw, kpos, lpos) in loops:
+                        if re.search(parm + r'[^=]*=>\s*$', bm[max(0, kpos - 160):kpos]):
+                            spans.append((lpos, match_delim(bm, lpos)))
+                    hits = [h for h in hits if any(a <= h.start() <= b for a, b in spans)]
                 if len(hits) <= nth:
+                    if it.contract_q:
+                        continue    # a part of a split function: the anchor lives in another part (checked at the end)
                     raise ExtractError('proof anchor /%s/ #%d not found in %s' % (rx, nth, q))
                 pos = hits[nth].start() if where == 'before' else hits[nth].end()
             self.used_proofs.add((q, idx))
-            inserts.append((pos, ('\nproof {\n' + ptext + '\n}\n', 'contract', pln + 1)))
+            inserts.append((pos, (wrap_proof(ptext), 'contract', pln + 1)))
         self.gen.add(sig.rstrip(), 'repo', it.file, line0, q)
         if ctext.strip():
             self.gen.add(ctext, 'contract', self.contracts.path, (contract[1] + 1) if contract else None, q)
